@@ -37,6 +37,22 @@ pub fn s1_chain_xyz() -> Scenario
     sc
 }
 
+/// S14: five rules in the shape app <- core util ; core <- gen ; gen <- lex ; lex <- util ; util <- s
+pub fn s14_five() -> Scenario
+{
+    Scenario
+    {
+        name: "S14-five".into(),
+        variants: vec![vec![cat_rule("app", &["core", "util"]), cat_rule("core", &["gen"]), cat_rule("gen", &["lex", "s2"]), cat_rule("lex", &["util"]), cat_rule("util", &["s"])]],
+        edits: vec![(s("s"), xy()), (s("s2"), xy())],
+        goals: g(&["gen", "app"]),
+        tamper: sv(&["lex"]),
+        ops: OpKinds { edit: true, build: true, clean: true, tamper: true, delete: true, rm_table: true, ..Default::default() },
+        nondeterministic: false,
+        flat_variants: vec![],
+    }
+}
+
 /// S2: diamond; l and r are byte-identical whenever u is empty
 pub fn s2_diamond() -> Scenario
 {
@@ -376,11 +392,120 @@ pub fn s13_binary() -> Scenario
     {
         name: "S13-binary".into(),
         variants: vec![vec![cat_rule("m", &["s1"]), cat_rule("t", &["m", "s2"])]],
-        edits: vec![(s("s1"), vec![bin(&[0xff, 0xfe, 0x00, 0x80]), bin(b"text"), bin(&[0x00])]), (s("s2"), vec![bin(&[0xc3, 0x28]), bin(b"Y")])],
+        edits: vec![(s("s1"), vec![bin(&[0xff, 0xfe, 0x00, 0x80]), bin(b"text"), bin(&[0x00]), bin(&[0xfe, 0xfe, 0x00, 0x81])]), (s("s2"), vec![bin(&[0xc3, 0x28]), bin(b"Y")])],
         goals: g(&["m"]),
         tamper: vec![],
         ops: OpKinds { edit: true, build: true, clean: true, ..Default::default() },
         nondeterministic: false,
+        flat_variants: vec![],
+    }
+}
+
+/// S15: four independent rules; in variant 1 the first of them is given twice (as when two rules
+/// files both contain it).  Two rules then claim one target: every build or clean must be refused
+/// and must leave the workspace alone, whatever goal is named.
+pub fn s15_repeated() -> Scenario
+{
+    let base = vec![cat_rule("a", &["sa"]), cat_rule("b", &["sb"]), cat_rule("c", &["sc"]), cat_rule("d", &["sa", "sc"])];
+    let mut twice = vec![cat_rule("a", &["sa"])];
+    twice.extend(base.clone());
+    Scenario
+    {
+        name: "S15-repeated-rule".into(),
+        variants: vec![base, twice],
+        edits: vec![(s("sa"), xy()), (s("sb"), xy()), (s("sc"), xy())],
+        goals: g(&["b", "c"]),
+        tamper: sv(&["c"]),
+        ops: OpKinds { edit: true, build: true, clean: true, tamper: true, delete: true, rules: true, ..Default::default() },
+        nondeterministic: false,
+        flat_variants: vec![],
+    }
+}
+
+/// S16: the chain of S1 with file contents longer than any plausible read block (4097, 9000 and
+/// 70000 bytes): hashing, caching and recovery of files that do not fit one read.
+pub fn s16_big() -> Scenario
+{
+    let big = |n: usize, seed: u8| -> Bytes { std::sync::Arc::new((0..n).map(|i| (((i * 7 + i / 251) as u8).wrapping_add(seed)) | 1).collect()) };
+    Scenario
+    {
+        name: "S16-big-files".into(),
+        variants: vec![vec![cat_rule("m", &["s1"]), cat_rule("t", &["m", "s2"])]],
+        edits: vec![(s("s1"), vec![big(4097, 1), big(9000, 2), bytes("X")]), (s("s2"), vec![big(70000, 3), bytes("Y")])],
+        goals: g(&["m"]),
+        tamper: sv(&["m"]),
+        ops: OpKinds { edit: true, build: true, clean: true, tamper: true, delete: true, ..Default::default() },
+        nondeterministic: false,
+        flat_variants: vec![],
+    }
+}
+
+/// S18: zero-byte files.  A source that can be empty, a chain below it, and a second rules variant whose
+/// first rule stops generating its target (exit 0, writes nothing): an empty target left over from
+/// the other variant must not pass for a generated one.  (The hash of a zero-byte file is also what
+/// ruler's "no state yet" placeholder carries.)
+pub fn s18_empty() -> Scenario
+{
+    Scenario
+    {
+        name: "S18-empty-files".into(),
+        variants: vec![vec![cat_rule("n", &["s"]), cat_rule("dn", &["n", "s2"])], vec![noout_rule("n", &["s"]), cat_rule("dn", &["n", "s2"])]],
+        edits: vec![(s("s"), vec![bytes(""), bytes("X")]), (s("s2"), vec![bytes(""), bytes("Y")])],
+        goals: g(&["n"]),
+        tamper: sv(&["n"]),
+        ops: OpKinds { edit: true, build: true, clean: true, rules: true, delete: true, ..Default::default() },
+        nondeterministic: false,
+        flat_variants: vec![],
+    }
+}
+
+/// S19: a target is moved aside and later moved back (`mv` keeps the modification time), so a file
+/// OLDER than what the file-state table last saw at the path stands there with other content.
+pub fn s19_aside() -> Scenario
+{
+    Scenario
+    {
+        name: "S19-moved-aside".into(),
+        variants: vec![vec![cat_rule("t", &["s"]), cat_rule("d", &["t"])]],
+        edits: vec![(s("s"), xy())],
+        goals: vec![None],
+        tamper: sv(&["t"]),
+        ops: OpKinds { edit: true, build: true, clean: true, aside: true, ..Default::default() },
+        nondeterministic: false,
+        flat_variants: vec![],
+    }
+}
+
+/// S17 with a third value of `s` (a build on sources never seen before displaces every current target)
+pub fn s17b_failing_twins3() -> Scenario
+{
+    let mut sc = s17_c18_failing_twins();
+    sc.name = "S17b-failing-twins-3".into();
+    sc.edits[0].1.push(bytes("3"));
+    sc
+}
+
+/// S17 (C18 only): a two-target rule whose targets are byte-identical twins and read an undeclared
+/// file `k` (deleting `k` makes its command fail), next to a rule whose target can take the same
+/// content as the twins.  Reaches: partial recovery of one twin from an entry another rule's target
+/// left in the cache, followed by a failing command, followed by a successful build.
+pub fn s17_c18_failing_twins() -> Scenario
+{
+    let r = RuleSpec
+    {
+        targets: sv(&["a", "b"]),
+        sources: sv(&["s"]),
+        lines: vec![Line::GuardedCat { guard: s("k"), inputs: sv(&["s", "k"]), out: s("a") }, Line::GuardedCat { guard: s("k"), inputs: sv(&["s", "k"]), out: s("b") }],
+    };
+    Scenario
+    {
+        name: "S17-c18-failing-twins".into(),
+        variants: vec![vec![r, cat_rule("c", &["u"])]],
+        edits: vec![(s("s"), vec![bytes("2"), bytes("1")]), (s("u"), vec![bytes("q"), bytes("2K"), bytes("w")]), (s("k"), vec![bytes("K")])],
+        goals: vec![None],
+        tamper: sv(&["k"]),
+        ops: OpKinds { edit: true, build: true, delete: true, ..Default::default() },
+        nondeterministic: true,
         flat_variants: vec![],
     }
 }
@@ -393,7 +518,7 @@ pub fn by_name(name: &str) -> Option<Scenario>
 
 pub fn all_scenarios() -> Vec<Scenario>
 {
-    let mut v = vec![s1_chain(), s1_chain_xyz(), s2_diamond(), s3_multi(), s3_c18(), s4_twins(), s4_c18(), s5_variants(), s6_exec(), s8_failures(), s9_scope(), s10_bundle(), s11_three(), s12_multiline_failure(), s13_binary()];
+    let mut v = vec![s1_chain(), s1_chain_xyz(), s14_five(), s2_diamond(), s3_multi(), s3_c18(), s4_twins(), s4_c18(), s5_variants(), s6_exec(), s8_failures(), s9_scope(), s10_bundle(), s11_three(), s12_multiline_failure(), s13_binary(), s15_repeated(), s16_big(), s17_c18_failing_twins(), s18_empty(), s19_aside(), s17b_failing_twins3()];
     for m in 0..4 { v.push(s7_undeclared(m)); }
     for m in 0..8 { v.push(s7_undeclared3(m)); }
     v.push(s7_preserving());
